@@ -124,3 +124,51 @@ def build_for(case, rng, doc, level):
     s.cal = dict(pub=pub, aggr=t, inp=cin, links=clinks)
     s.auth = dict(time=pub, imp=sigcase.flip(root) if has("authHash") else root)
     return s
+
+
+# ------------------------------------------------------------------ reference extender
+
+def new_cal_chain(rng, src, pub, aggr, shape_aggr=None, alter_rlink=False):
+    """calendar chain from aggregation time `aggr` to publication time `pub` for signature `src` (honest: input = aggregation root,
+    right links = those of the signature's previous calendar chain, in order). shape_aggr: time the SHAPE is computed for."""
+    lefts = list(reversed(ksi.cal_shape(pub, aggr if shape_aggr is None else shape_aggr)))
+    old_r = [imp for l, imp in src.cal["links"] if not l] if src.cal else []
+    links = []; ri = 0
+    for l in lefts:
+        if not l and ri < len(old_r):
+            links.append((l, old_r[ri])); ri += 1
+        else:
+            links.append((l, ksi.fake_imprint(1, rng.randbytes(8))))
+    if alter_rlink:
+        idx = [i for i, (l, _) in enumerate(links) if not l]
+        if not idx:
+            return None
+        i = rng.choice(idx); links[i] = (False, sigcase.flip(links[i][1]))
+    return links
+
+
+def ext_reply(a, rng, rid, src, aggr, pub_req):
+    """-> (bytes | None, dict(pub, links, inp, root)) for attribute vector a"""
+    if a["what"] == "close":
+        return None, None
+    if a["what"] == "garbage":
+        return bytes.fromhex("83210006deadbeef0102"), None
+    if a["what"] == "errpdu":
+        return envelope(0x0321, (0x0300, 0x0303), [(0x03, ksi.tlv(0x04, ksi.uint(0x101)) + ksi.tlv(0x05, b"error\0"))], a), None
+    use_id = rid if a["id"] == "same" else rid + 1000
+    if a["status"] != 0:
+        body = ksi.tlv(0x01, ksi.uint(use_id)) + ksi.tlv(0x04, ksi.uint(a["status"])) + ksi.tlv(0x05, b"request failed\0")
+        return envelope(0x0321, (0x0300, 0x0302), [(0x02, body)], a), None
+    pub = pub_req if pub_req is not None else aggr + 9000 + rng.randrange(100)
+    if a["pubtime"] == "other":
+        pub += 1
+    field_aggr = aggr + 1 if a["aggrtime"] == "other" else aggr
+    shape_for = (aggr + 1) if (a["shape"] == "bad" or a["aggrtime"] == "other") else aggr
+    links = new_cal_chain(rng, src, pub, aggr, shape_aggr=shape_for, alter_rlink=(a["rlinks"] == "altered" and src.cal is not None))
+    if links is None:
+        return "unrealisable", None
+    root_in = src.root()[0]
+    inp = sigcase.flip(root_in) if a["input"] == "other" else root_in
+    cal = ksi.cal_chain_tlv(pub, field_aggr, inp, links)
+    body = ksi.tlv(0x01, ksi.uint(use_id)) + ksi.tlv(0x04, b"") + ksi.tlv(0x12, ksi.uint(pub + 50)) + cal
+    return envelope(0x0321, (0x0300, 0x0302), [(0x02, body)], a), dict(pub=pub, links=links, inp=inp, cal=cal, root=ksi.cal_aggregate(links, inp))
